@@ -13,7 +13,7 @@ import subprocess
 from concurrent.futures import ThreadPoolExecutor
 from pathlib import Path
 
-from . import core, ptrace
+from . import core, ignoreuni, ptrace
 from .core import Scratch, ToolError, Verdict, log
 
 KINDS = ["rs", "modrs", "inline", "path"]
@@ -316,6 +316,19 @@ def run(tier, seed, replay=None):
                             {"scenario": sc, "observed": o, "model": f})
             elif "AsWalk" in fails:
                 v.drift += 1
+        # `matched by ignore`: the pattern algebra (IgnoreSet.tla) on a fixed universe of pattern
+        # lists x where the configuration file lives x how the root is named
+        (base / "ign").mkdir()
+        irecs, iruns = ignoreuni.observe(base / "ign")
+        ifails, istates = ignoreuni.evaluate(irecs, base)
+        for idx, f in ifails:
+            if "IgnoreSound" in f["fails"]:
+                r = irecs[idx]
+                v.violation(f"ignore:{r['_key']}",
+                            f"ignore list at {r['_key']}: the file was "
+                            f"{'left out' if r['ignored'] else 'formatted'}, the patterns say "
+                            f"{'ignored' if f['want'] else 'not ignored'}",
+                            {"record": {k: r[k] for k in r if k != "pats"}})
         o2 = [{"events": o["events"], "roots": [], "mode": "files", "fl": {},
                "tag": key_of(s), "argv": []} for s, o in zip(sel, obs)]
         t_ok, t_rej, tstates = ptrace.validate(o2, base)
@@ -340,6 +353,8 @@ def run(tier, seed, replay=None):
                    "x tweaks (ambiguous pair, missing file, skip attributes, cfg_if, empty "
                    "directory, skip_children, ignore, @generated); all scenarios distinct by construction",
            "universe": len(uni), "model_walk_differs_from_rule": n_model_diff,
+           "ignore_runs": iruns, "ignore_records": len(irecs),
+           "ignore_records_ignored": sum(1 for r in irecs if r["ignored"]), "ignore_states": istates,
            "trace_states": tstates, "exhaustive": tier == "thorough"}
     cov.update(suite_cov)
     return v.finish("model_checking", cov, [
